@@ -61,6 +61,7 @@ class SimDevice:
         self.handshakes = 0
         self.requests = 0
         self.extra_creds: dict[bytes, bytes] = {}   # further token -> key registrations
+        self.lossy = None            # optional f(conn, ptype) -> True: packet is lost before the device sees it
         self.on_enc_request = None   # optional takeover of verified type-6 packets: f(conn, V3Packet, entry)
         # wire log: one entry per client packet
         self.rx: list[dict] = []
@@ -130,6 +131,22 @@ class SimDevice:
         ptype = data[5] & 0xF
         if data[4] != 0x20:
             entry["error"] = "magic"
+            return
+        lost = self.lossy is not None and self.lossy(conn, ptype)
+        if lost:
+            # the packet never reaches the device's protocol engine: log what a wire tap would see, change nothing
+            entry["lost"] = True
+            try:
+                p = rc.v3_parse(data, st["session_key"]) if ptype == rc.T_ENC_REQ else rc.v3_parse(data)
+                entry["counter"] = p.counter
+                if ptype == rc.T_HANDSHAKE_REQ:
+                    entry["token"] = p.body
+                    entry["error"] = "lost"
+                else:
+                    v2 = rc.v2_parse(p.payload)
+                    entry.update(ok=True, frame=v2.frame, device_id=v2.device_id)
+            except rc.RefError as e:
+                entry["error"] = str(e)
             return
         if ptype == rc.T_HANDSHAKE_REQ:
             try:
